@@ -19,6 +19,9 @@ import Thanos.Model.Hashring
       perm    `.`-list: for every new position the old position
     -> <A1> <A2>    Ai = toofew | stuck | hang | panic | tie | <G>   (G in positions of eps, for both)
 
+  keta <rf> <eps> <pos> <series>            the ring without endpoint number pos of eps, and the ring of eps
+    -> <A_before> <A_after>                  (both in positions of eps; GetN for n = 0 .. rf-1)
+
   mod <nq> <addrs> <series>                 hashmod ring; addrs = `,`-list of <addrhex>
     -> <G>          gi = first position of the answered address in addrs | I
   modp <nq> <addrs> <perm> <series>         … and the ring built from the permuted list
@@ -133,6 +136,14 @@ def handle : List String → String
     | some rf, some nq, some eps, some perm, some vs =>
       ketG true rf nq eps (List.range eps.length) vs ++ " " ++ ketG true rf nq (permute eps perm) perm vs
     | _, _, _, _, _ => "bad-op"
+  | ["keta", rf, eps, pos, series] =>
+    match parseNat? rf, parseEps eps, parseNat? pos, parseSeries series with
+    | some rf, some eps, some pos, some vs =>
+      if pos < eps.length then
+        let ren := (List.range (eps.length - 1)).map fun i => if i < pos then i else i + 1
+        ketG true rf rf (eps.eraseIdx pos) ren vs ++ " " ++ ketG true rf rf eps (List.range eps.length) vs
+      else "bad-op"
+    | _, _, _, _ => "bad-op"
   | ["mod", nq, addrs, series] =>
     match parseNat? nq, parseAddrs addrs, parseSeries series with
     | some nq, some addrs, some vs => modG nq addrs addrs vs
